@@ -246,3 +246,15 @@ pub fn twice(args: &[String]) {
     let r = futures::executor::block_on(vm2.compile_to_bytecode("other", &src, &mut ser)).map(|_| ()).map_err(|e| e.to_string());
     println!("compile_to_bytecode fresh vm: {:?}", r.map_err(|e| e.lines().take(12).collect::<Vec<_>>().join("\n")));
 }
+
+/// `gv fmt <file>`: print the formatter's output for a file (debug aid)
+pub fn fmt(args: &[String]) {
+    crate::worker::install_panic_hook();
+    let src = std::fs::read_to_string(&args[0]).unwrap();
+    let vm = vm_with(Settings { prelude: true, ..Settings::PLAIN });
+    let mut f = gluon_format::Formatter { expanded: false };
+    match vm.format_expr(&mut f, "fmt", &src) {
+        Ok(o) => print!("{}", o),
+        Err(e) => println!("ERROR {}", e),
+    }
+}
